@@ -116,6 +116,10 @@ def correspondence(ctx):
                  "non-ASCII look-alikes of hex digits (fullwidth, Arabic-Indic, Devanagari, mathematical digits, Cyrillic/Greek letters, mixed). "
                  "multikey: layouts with 3-6 keys in keys / rootcas / intermediatecas, exactly one invalid (every kind), validated 40 times each "
                  "(Go randomises the map order per call; a verdict that changes is reported as NONDETERMINISTIC). "
+                 "histories: pairs of artifact rules with the same blank-joined text but other token boundaries (one well-formed, one not), "
+                 "validated in both orders in one process and inside one layout (two steps / materials and products / step and inspection): "
+                 "each document's verdict is what a fresh process gives. The null / absent / wrongly typed forms of every required wrapper "
+                 "member (signed, signatures; payloadType, payload, signatures) are always part of the corrupt sample. "
                  "large: links with 12000 products / 1.5 MB of captured stdout dumped by the library and loaded back, both wrappers, both loaders "
                  "(observable = length and SHA-256 of the canonical rendering). padded: a valid document, blanks, then junk starting around "
                  "64 KiB, 1 MiB, 2 MiB, 4 MiB: must be refused. "
